@@ -53,7 +53,10 @@ type Scn struct {
 	// cancelled (its modules are cleaned up); later arrivals are handled by the new instance.
 	// Upstream state (failures, open connections, health) lives on the shared peers and carries over
 	ReloadMS int  `json:"reload_ms,omitempty"`
-	SlowFail bool `json:"slow_fail,omitempty"` // a failing dial may also fail only after 300 ms (e.g. a handshake that times out), so that dials to one peer overlap
+	SlowFail bool `json:"slow_fail,omitempty"`
+	// Shared: upstream 0 dials two addresses A and B, upstream 1 dials A alone; B always refuses,
+	// A always accepts.  A failure of B is B's: A, and with it upstream 1, stays in rotation
+	Shared bool `json:"shared_peer,omitempty"` // a failing dial may also fail only after 300 ms (e.g. a handshake that times out), so that dials to one peer overlap
 }
 
 type vclock struct{}
@@ -109,8 +112,11 @@ type target struct {
 func targets(sc *Scn) []target {
 	addrs := addrsOf(sc)
 	ts := []target{{addrs[0], 0, 0}, {addrs[1], 1, 0}}
-	if sc.Peers == 2 {
+	if sc.Peers == 2 || sc.Shared {
 		ts = append(ts, target{secondPeer, 0, 1})
+	}
+	if sc.Shared {
+		ts = []target{ts[0], ts[2]} // upstream 1 dials A as well: two addresses in all
 	}
 	return ts
 }
@@ -137,6 +143,8 @@ func execute(x *explore.Exec, sc *Scn) *result {
 				if sc.ActiveMS > 0 {
 					t := vsched.NowNS() / 1e6
 					ok = !(u == 0 && t >= int64(sc.Outage[0]) && t < int64(sc.Outage[1]))
+				} else if sc.Shared {
+					ok = tg.addr != secondPeer
 				} else if failing < sc.MaxFailing {
 					n := 2
 					if sc.SlowFail {
@@ -171,13 +179,13 @@ func execute(x *explore.Exec, sc *Scn) *result {
 		}
 		addrs := addrsOf(sc)
 		dial0 := []string{addrs[0]}
-		if sc.Peers == 2 {
+		if sc.Peers == 2 || sc.Shared {
 			dial0 = append(dial0, secondPeer)
 		}
 		px := map[string]any{"handler": "proxy",
 			"upstreams": []map[string]any{
 				{"dial": dial0, "max_connections": sc.MaxConns + sc.MaxConns0},
-				{"dial": []string{addrs[1]}, "max_connections": sc.MaxConns}},
+				{"dial": []string{map[bool]string{false: addrs[1], true: addrs[0]}[sc.Shared]}, "max_connections": sc.MaxConns}},
 			"load_balancing": map[string]any{"selection": map[string]any{"policy": "first"},
 				"try_duration": fmt.Sprintf("%dms", sc.TryDurMS), "try_interval": fmt.Sprintf("%dms", sc.TryIntMS)},
 		}
@@ -246,10 +254,13 @@ func execute(x *explore.Exec, sc *Scn) *result {
 		}
 		cancel() // stops the active health checker
 		vtime.Sleep(time.Second)
-		for _, a := range addrsOf(sc) {
+		for i, a := range addrsOf(sc) {
+			if sc.Shared && i == 1 {
+				continue
+			}
 			res.peers = append(res.peers, []l4proxy.VerifPeerState{st[a]})
 		}
-		if sc.Peers == 2 {
+		if sc.Peers == 2 || sc.Shared {
 			res.peers[0] = append(res.peers[0], st[secondPeer])
 		}
 	})
@@ -308,6 +319,10 @@ func check(x *explore.Exec, sc *Scn, r *result) {
 	}
 	if sc.Peers == 2 {
 		checkMultiPeer(x, sc, r, desc)
+		return
+	}
+	if sc.Shared {
+		checkShared(x, sc, r, desc)
 		return
 	}
 	if x.Used(explore.KTime) > 0 {
@@ -575,6 +590,51 @@ func checkMultiPeer(x *explore.Exec, sc *Scn, r *result, desc func() string) {
 	x.Observe(sb.String(), okConns)
 }
 
+// checkShared judges the family in which upstream 1 shares its only peer A with upstream 0,
+// whose second peer B always refuses (no retries): an attempt at upstream 0 dials A and B and
+// fails, remembering one failure for B only; while that is remembered upstream 0 is out of
+// rotation and the connection is served by upstream 1, i.e. by a single dial of A.
+func checkShared(x *explore.Exec, sc *Scn, r *result, desc func() string) {
+	if x.Used(explore.KTime) > 0 {
+		x.Observe("time-deviation")
+		return
+	}
+	failDur := int64(sc.FailDurMS) * 1e6
+	var failsB []int64
+	di := 0
+	for i, c := range r.conns {
+		n := 0
+		for _, f := range failsB {
+			if c.Arrive >= f && c.Arrive < f+failDur {
+				n++
+			}
+		}
+		want := []int{0} // peers dialled: A
+		wantErr := false
+		if n < 1 {
+			want, wantErr = []int{0, 1}, true // upstream 0: A, then B which refuses
+		}
+		for _, p := range want {
+			if di >= len(r.dials) || r.dials[di].Peer != p || r.dials[di].At < c.Arrive || r.dials[di].At > c.Arrive+1000 {
+				x.Fail("wrong-upstream", "connection %d (arrived %.3fs, %d failure(s) of peer B remembered) should dial peers %v of the shared-peer pool (0 = A, 1 = B) at once; %s", i, float64(c.Arrive)/1e9, n, want, desc())
+				return
+			}
+			if p == 1 {
+				failsB = append(failsB, r.dials[di].DoneAt)
+			}
+			di++
+		}
+		if !c.Returned || (c.Err != "") != wantErr {
+			x.Fail("wrong-fate", "connection %d: returned=%v error=%q, expected an error: %v; %s", i, c.Returned, c.Err, wantErr, desc())
+			return
+		}
+	}
+	if di != len(r.dials) {
+		x.Fail("unexpected-dial-time", "%d dials more than the connections account for; %s", len(r.dials)-di, desc())
+	}
+	x.Observe(len(r.dials))
+}
+
 func u2b(u int) int { return u }
 
 func availableIgnoringConns(u int, fails [2][]int64, failDur int64, maxFails int, sc *Scn, down [2]bool, t int64) bool {
@@ -665,6 +725,12 @@ func scenarios(tier string, yield0 func(any) bool) {
 					}
 				}
 			}
+		}
+	}
+	// a peer shared by two upstreams, next to a peer that always refuses
+	for _, arr := range [][]int{{0, 300, 2500}, {0, 130, 1900, 2160, 2400}} {
+		if !yield(&Scn{FailDurMS: 2000, MaxFails: 1, TryDurMS: 0, TryIntMS: 250, Arrivals: arr, Shared: true}) {
+			return
 		}
 	}
 	// a configuration reload while upstream state is live: remembered failures, open connections
